@@ -234,6 +234,9 @@ REP = {
     "inv-plaus-equal": (0.0, -2.0, 1.0, 1.0, 2.0),
     "inv-plaus-inf": (0.0, -np.inf, -np.inf, 1.0, np.inf),
     "inv-nan": (0.0, -2.0, float("nan"), 1.0, 2.0),
+    # hard bounds one ulp apart (don't-care verdict, but if accepted the start must be strictly inside): next to ordinary variables
+    "inv-ulps": (-1.0, -1.0, NA, NA, float(np.nextafter(-1.0, 0.0))),
+    "inv-ulps-nox0": (NA, 1.0, NA, NA, float(np.nextafter(1.0, 2.0))),
 }
 
 
